@@ -83,6 +83,7 @@ pub fn c01(tier: Tier) -> i32 {
     }
     proto::run_configs(&mut rep, "C01", cfgs, 3);
     crate::sim_checks::c01_strategies(&mut rep, tier);
+    proto::rounds::run_c01(&mut rep, tier);
     rep.assume("the Byzantine member's behaviour is a menu (equivocating / stale / non-leader proposals on every certificate present on or formable from the wire, double votes, timeouts with the lowest and highest known QC, formable TCs), not arbitrary bytes; arbitrary bytes are C15's and C04's subject");
     rep.finish()
 }
